@@ -13,7 +13,7 @@ theorem tie (t : Tracking) (now : Int) :
     run (Code.ctx now) "shm_writer::extract_bound_from_tracking" .unit [trackingValue t]
     = .ok (.tuple [.int .i64 (boundF t), chronyValue (classify t now)]) .unit [] := by
   obtain ⟨leap, refNs, offW, dispW, delayW, intervalW, refid⟩ := t
-  simp (maxSteps := 400000) [rs_eval, rs_code, trackingValue]
+  simp (maxSteps := 400000) [rs_eval, chkInt, rs_code, trackingValue]
   generalize hM : classify _ _ = M
   simp only [boundF]
   repeat' split
